@@ -165,6 +165,38 @@ def run(tier: str) -> int:
             ctx, out = bad
             rep.violation(f"assembleConstants=True: source semantics and real TEAL disagree: {out[:400]}",
                           case.replay_dict(ctx, {"compare": out}))
+    # ---- two live variables whose slots carry the SAME automatic id (the public `ScratchSlot.reset_slot_numbering` rewinds the counter;
+    # the Router does so after every compilation): they are different variables, the program stores and reads them separately
+    import pyteal as _pt
+    from pipeline import gen_ctx as _gen_ctx
+    from recipes import render_ctx as _render_ctx
+    for ver in (2, 6, 8, 10):
+        for k in (1, 3):
+            saved = _pt.ScratchSlot.nextSlotId
+            try:
+                xs = [_pt.ScratchVar(_pt.TealType.uint64) for _ in range(k)]
+                _pt.ScratchSlot.reset_slot_numbering(xs[0].slot.id)
+                ys = [_pt.ScratchVar(_pt.TealType.uint64) for _ in range(k)]
+                vs_ = xs + ys
+                ok_ = _pt.Int(1)
+                for i_, v_ in enumerate(vs_):
+                    ok_ = _pt.And(ok_, v_.load() == _pt.Int(40 + i_))
+                try:
+                    teal_ = _pt.compileTeal(_pt.Seq(*[v_.store(_pt.Int(40 + i_)) for i_, v_ in enumerate(vs_)], _pt.Return(ok_)),
+                                            _pt.Mode.Application, version=ver, optimize=_pt.OptimizeOptions(scratch_slots=False))
+                except (_pt.TealInputError, _pt.TealInternalError, _pt.TealCompileError, _pt.TealTypeError) as e_:
+                    stats["same-id variables:refused " + type(e_).__name__] += 1
+                    continue
+            finally:
+                _pt.ScratchSlot.nextSlotId = max(saved, _pt.ScratchSlot.nextSlotId)
+            a1 = d.ask(f"teal tsame {teal_.encode().hex()}")
+            a2 = d.ask("ctx csame " + _render_ctx(_gen_ctx(rng(f"c01-same-{ver}-{k}"), "app", ver)))
+            out_ = d.ask("exec tsame csame 20000") if a1.startswith("ok") and a2 == "ok" else f"{a1} / {a2}"
+            stats["same-id variables:" + ("approve" if out_.startswith("done u1") else "OTHER")] += 1
+            if not out_.startswith("done u1"):
+                rep.violation(f"{2 * k} variables, two of them with equal automatic slot ids (after ScratchSlot.reset_slot_numbering): every variable is stored "
+                              f"its own value and read back; the source semantics approves, the real TEAL gives {out_[:160]} (v{ver})",
+                              {"kind": "same-id", "version": ver, "k": k, "teal": teal_, "avm": out_})
     d.close()
     if st is not None and not st.ok:
         rep.violation("proof obligations no longer check: " + "; ".join(st.problems)[:600],
